@@ -113,9 +113,20 @@ theorem hUpdate_ok (c : Ctx) (k : Key) (v : Val) : HOk k c (hUpdate c k v).1 := 
     · rename_i e c1 h; exact load_same h
     · rename_i cur c1 h; exact (load_same h).trans (upd_tail c1 k v cur)
 
-theorem hDelete_ok (cfg : Cfg) (c : Ctx) (k : Key) : HOk k c (hDelete cfg c k).1 := by
+theorem hDelete_ok (cfg : Cfg) (hd : DelOk cfg) (c : Ctx) (k : Key) : HOk k c (hDelete cfg c k).1 := by
   unfold hDelete
-  split
+  rcases hd with hd | hd <;> simp only [hd]
+  · split
+    · rename_i e c1 h
+      obtain ⟨hca, hfr, _, herr⟩ := callDel_spec h
+      refine ⟨fun hc => ?_, hfr, fun p hp => by rw [hca] at hp; exact Or.inl hp⟩
+      rw [herr e rfl, hca]; exact hc
+    · rename_i u c1 h
+      obtain ⟨hca, hfr, _, _⟩ := callDel_spec h
+      refine ⟨fun hc => ?_, hfr, fun p hp => ?_⟩
+      · simp only [hca]
+        exact cohC_cDelete hc hfr
+      · simp only [hca] at hp; exact Or.inl (mem_sErase hp).1
   · -- cache first
     have h0 : HOk k c { c with cache := cDelete c.cache k } :=
       ⟨fun h => cohC_cDelete h (Frame.refl _ _), Frame.refl _ _, fun _ hp => Or.inl (mem_sErase hp).1⟩
@@ -128,17 +139,6 @@ theorem hDelete_ok (cfg : Cfg) (c : Ctx) (k : Key) : HOk k c (hDelete cfg c k).1
       obtain ⟨hca, hfr, _, _⟩ := callDel_spec h
       refine h0.trans ⟨fun hc => ?_, hfr, fun p hp => by rw [hca] at hp; exact Or.inl hp⟩
       rw [hca]; exact cohC_frame hc hfr (noKey_cDelete _ _)
-  · split
-    · rename_i e c1 h
-      obtain ⟨hca, hfr, _, herr⟩ := callDel_spec h
-      refine ⟨fun hc => ?_, hfr, fun p hp => by rw [hca] at hp; exact Or.inl hp⟩
-      rw [herr e rfl, hca]; exact hc
-    · rename_i u c1 h
-      obtain ⟨hca, hfr, _, _⟩ := callDel_spec h
-      refine ⟨fun hc => ?_, hfr, fun p hp => ?_⟩
-      · simp only [hca]
-        exact cohC_cDelete hc hfr
-      · simp only [hca] at hp; exact Or.inl (mem_sErase hp).1
 
 theorem hUpdOrAdd_ok (c : Ctx) (k : Key) (v : Val) : HOk k c (hUpdOrAdd c k v).1 := by
   unfold hUpdOrAdd
@@ -173,7 +173,7 @@ theorem hUpsertThenRenew_ok (c : Ctx) (k : Key) (v : Val) : HOk k c (hUpsertThen
     · rename_i e c1 h; exact mut_no_set (callUpsert_spec h) hn
     · rename_i nv c1 h; exact mut_no_set (callUpsert_spec h) hn
 
-theorem handle_ok (cfg : Cfg) (c : Ctx) (op : Op) : HOk op.key c (handle cfg c op).1 := by
+theorem handle_ok (cfg : Cfg) (hd : DelOk cfg) (c : Ctx) (op : Op) : HOk op.key c (handle cfg c op).1 := by
   cases op with
   | get k =>
     simp only [handle, Op.key]
@@ -187,7 +187,7 @@ theorem handle_ok (cfg : Cfg) (c : Ctx) (op : Op) : HOk op.key c (handle cfg c o
       subst this; exact hg.trans (hLoad_ok _ k)
   | add k v => exact hAdd_ok c k v
   | upd k v => exact hUpdate_ok c k v
-  | del k => exact hDelete_ok cfg c k
+  | del k => exact hDelete_ok cfg hd c k
   | uoa k v => exact hUpdOrAdd_ok c k v
   | utl k v => exact hUpsertThenLoad_ok c k v
   | utr k v => exact hUpsertThenRenew_ok c k v
